@@ -158,6 +158,7 @@ func (c *Ctx) c08History(nops int) (lines, impl []string, oracleErr string) {
 // ---------------------------------------------------------------- programs for the Go toolchain
 
 type progGen struct {
+	lit    int
 	r      *RNG
 	sb     strings.Builder
 	scopes [][]string
@@ -270,7 +271,18 @@ func (g *progGen) stmt(depth int) {
 		default:
 			fmt.Fprintf(&g.sb, "%s++\n", v)
 		}
-	case k < 38:
+	case k < 34:
+		g.print()
+	case k < 38: // a function literal (no captures: its parameter and locals are named like outer variables), then the
+		// outer names are used again - they must still be the outer bindings
+		g.lit++
+		p2 := Pick(g.r, names)
+		for p2 == name {
+			p2 = Pick(g.r, names)
+		}
+		fmt.Fprintf(&g.sb, "fl%d := func(%s int) int {\n%s := %s + g\n_ = %s\nreturn %s*2 + %d\n}\n", g.lit, name, p2, name, p2, name, g.r.Intn(5))
+		v := Pick(g.r, g.visible())
+		fmt.Fprintf(&g.sb, "%s = %s + fl%d(%d)\n", v, v, g.lit, g.r.Intn(7))
 		g.print()
 	case k < 45 && g.noCall:
 		g.print()
